@@ -231,6 +231,10 @@ def install(ctx, mode):
         self = args[0]
         c = args[1] if len(args) > 1 else kwargs['circuit']
         names = describe_transformer(self)
+        if not names or any(nm not in LEAVES for nm in names):
+            # a transformer that is not one of the library's simplification passes (e.g. a test double)
+            ctx.mon('transform', 'skipped_foreign_transformer')
+            return
         ctx.mon('transform')
         if mode == 'C03':
             check_c03('Transformer.transform', st, c, result, 'RRG_in' in names, ctx, CUR['case'])
@@ -254,6 +258,9 @@ def install(ctx, mode):
         names = []
         for t in lst:
             names += describe_transformer(t)
+        if any(nm not in LEAVES for nm in names):
+            ctx.mon('apply_transformers', 'skipped_foreign_transformer')
+            return
         ctx.mon('apply_transformers')
         if mode == 'C03':
             check_c03('Transformer.apply_transformers', st, c, result, 'RRG_in' in names, ctx, CUR['case'],
